@@ -72,7 +72,7 @@ class RefCheck:
             elif res and refrun.expected_class(res[0].status) is None:
                 common.log("witness %s: model says %s (not comparable)" % (f["id"], res[0].status))
 
-    def suite(self, name, sexps, nontrivial=None, known_cell=None, max_report=3, shrink=True, timeout=10):
+    def suite(self, name, sexps, nontrivial=None, known_cell=None, max_report=3, shrink=True, timeout=5):
         """run a list of programs; report property-level mismatches.
         nontrivial: fn(RefResult) -> hashable key or None.  known_cell: fn(RefResult) -> finding id or None,
         for finite matrices whose failing cells are listed findings."""
@@ -100,7 +100,10 @@ class RefCheck:
             if self.reported >= max_report:
                 continue
             self.reported += 1
-            small = refrun.shrink_mismatch(self.exe, r, self.gates) if shrink else r
+            # shrinking is skipped when the check is already running long
+            import time
+            shrink_now = shrink and (time.time() - self.v.t0) < 240
+            small = refrun.shrink_mismatch(self.exe, r, self.gates) if shrink_now else r
             self.v.violation("suite %s: model says %s / %r..., implementation %s / %r..." % (
                 name, small.status, small.stdout[-80:], small.impl_class, (small.impl_out or "")[-80:]),
                 refrun.replay_obj(small, {"suite": name, "original_sexp": r.sexp}))
